@@ -173,6 +173,8 @@ add("C12", "exploration", [
     {"name": "c12-reuse", "bin": "c12", "pkg": ZZ + "c12", "run": "^TestVerifC12Reuse$",
      "shards": {"quick": 12, "thorough": 16}, "checks": {"quick": 12, "thorough": 500},
      "timeout": {"quick": 900, "thorough": 3300}, "shrinktime": "90s"},
+    {"name": "c12-shapes", "bin": "c12", "pkg": ZZ + "c12", "run": "^TestVerifC12ReuseShapes$",
+     "shards": {"quick": 4, "thorough": 8}, "timeout": {"quick": 900, "thorough": 3300}},
     {"name": "c12-window", "bin": "exec", "pkg": "./exec", "run": "^TestVerifC12DiscardBeforeAssign$",
      "shards": {"quick": 4, "thorough": 4}, "timeout": {"quick": 600, "thorough": 900}},
     {"name": "c12-discardrace", "bin": "c12", "pkg": ZZ + "c12", "run": "^TestVerifC12DiscardRightAfterRun$",
